@@ -629,7 +629,11 @@ pub fn run_random<D: Driver>(opts: &RunOpts) -> Outcome {
                 // what the buffer holds); the other drivers' models are plain facts about what the harness
                 // itself did and saw (guards held, permit ledger, latches, deadlines, publication log), which
                 // stay true after a failed predicate: there, another property's failure never ends the history.
-                let drift = D::name().starts_with("mpmc") && fs.iter().any(|f| !is_target(f) && !["C01", "C17", "C18", "C20", "MODEL"].contains(&f.prop));
+                // (wake-up predicates that read "value available" / "closed" from the channel through the hook are
+                // observations, not model verdicts: they do not end the history either)
+                const DRIFT_FREE: [&str; 2] = ["value-available-and-receivers-pending-implies-one-woken", "every-pending-receiver-woken-after-close"];
+                let drift = D::name().starts_with("mpmc")
+                    && fs.iter().any(|f| !is_target(f) && !["C01", "C17", "C18", "C20", "MODEL"].contains(&f.prop) && !(crate::slots::inspect_on() && DRIFT_FREE.contains(&f.pred)));
                 let fatal = drift || fs.iter().any(|f| f.pred == "no-panic-on-contract-respecting-history" || (f.pred == "queue-walk-sound" && f.detail.contains("dangling")));
                 tainted += 1;
                 if target_hit || fatal || stop || tainted > 40 {
